@@ -15,7 +15,7 @@ def main():
     except ModuleNotFoundError as exc:
         print(f'no check for {pid}: {exc}')
         return 2
-    return main_for(pid, mod.run, sys.argv[2:])
+    return main_for(pid, mod.run, sys.argv[2:], replay_fn=getattr(mod, 'replay', None))
 
 
 if __name__ == '__main__':
